@@ -364,11 +364,18 @@ pub struct Job {
     pub body: Body,
     pub shard: u32,
     pub nshards: u32,
+    pub shrink_iters: u32,
 }
 
 pub struct Jobs {
     pub v: Vec<Job>,
+    /// 1 in the quick tier, `PropSpec::thorough_mult` in the thorough tier
     pub tier_mult: u32,
+    /// proptest max_shrink_iters for jobs registered from now on (default 4000;
+    /// lower it for rules whose body is expensive, e.g. compiles a program)
+    pub shrink_iters: u32,
+    /// cases per shard for jobs registered from now on (default 5000)
+    pub shard_size: u32,
 }
 
 impl Jobs {
@@ -383,7 +390,7 @@ impl Jobs {
         body: Body,
     ) {
         let total = cases.saturating_mul(self.tier_mult);
-        let shard_size = 5000u32;
+        let shard_size = self.shard_size.max(1);
         let nshards = ((total + shard_size - 1) / shard_size).max(1);
         for s in 0..nshards {
             let lo = (total as u64 * s as u64 / nshards as u64) as u32;
@@ -397,6 +404,7 @@ impl Jobs {
                 body,
                 shard: s,
                 nshards,
+                shrink_iters: self.shrink_iters,
             });
         }
     }
@@ -407,7 +415,7 @@ impl Jobs {
         en: impl Fn(&mut dyn FnMut(&Case) -> R) -> R + Send + Sync + 'static,
         body: Body,
     ) {
-        self.v.push(Job { rule, bits, cases: 0, source: Source::Enum(Box::new(en)), body, shard: 0, nshards: 1 });
+        self.v.push(Job { rule, bits, cases: 0, source: Source::Enum(Box::new(en)), body, shard: 0, nshards: 1, shrink_iters: self.shrink_iters });
     }
 }
 
@@ -483,7 +491,7 @@ fn run_job(job: &Job, prop: &'static str, seed: u64, known: Arc<Vec<Known>>) -> 
             let cfg = Config {
                 cases: job.cases,
                 failure_persistence: None,
-                max_shrink_iters: 4_000,
+                max_shrink_iters: job.shrink_iters,
                 max_shrink_time: 0,
                 fork: false,
                 timeout: 0,
@@ -647,7 +655,7 @@ pub fn main_with(spec: PropSpec, build: impl Fn(&mut Jobs, &Args), finish: impl 
     std::panic::set_hook(Box::new(|_| {}));
     let t0 = Instant::now();
     let known = Arc::new(load_known(&args.root, spec.id));
-    let mut jobs = Jobs { v: vec![], tier_mult: if args.tier == "thorough" { spec.thorough_mult } else { 1 } };
+    let mut jobs = Jobs { v: vec![], tier_mult: if args.tier == "thorough" { spec.thorough_mult } else { 1 }, shrink_iters: 4000, shard_size: 5000 };
     build(&mut jobs, &args);
 
     // ---- replay mode ----
@@ -903,6 +911,13 @@ pub fn main_with(spec: PropSpec, build: impl Fn(&mut Jobs, &Args), finish: impl 
         println!("VIOLATION property={} replay={}", spec.id, p.display());
     }
     std::process::exit(1);
+}
+
+/// Report a problem of the harness itself (oracle self-test failed, tool
+/// missing): exit 2, never a violation.
+pub fn harness_error(msg: &str) -> ! {
+    println!("INCONCLUSIVE: harness error: {msg}");
+    std::process::exit(2)
 }
 
 /// Helper to build a BoxedStrategy<Case> from any strategy + mapper.
